@@ -32,6 +32,8 @@ BOUNDS = {
 OUTSIDE = ("thread schedules of the compiled numba kernels (see prange race-freedom check in this harness' "
            "race configurations), process freshness, real scipy iterates")
 
+FLOAT_SELFCHECK = True
+
 
 def preload():
     c02.preload()
